@@ -18,7 +18,7 @@ pub fn dump() -> String {
         o.push_str(&z(&format!("E_{}", n), c as i128));
     }
     o.push_str(&z(
-        "E_Drift_MathError",
+        "E_DriftMocks_MathError",
         u32::from(drift_mocks::DriftMocksError::MathError) as i128,
     ));
     o.push('\n');
